@@ -309,3 +309,51 @@ where
     forget(masked);
     forget(env);
 }
+
+/// `GenericWriteStorage::get_mut_or_default` needs a real `WriteStorage`
+/// (`Storage<T, FetchMut<MaskedStorage<T>>>`): under Kani the `FetchMut` comes
+/// from the shred model's `verif_from_mut`, natively from a `World` holding the
+/// storage.
+pub fn or_default_step<T: Kind + Default>(ids: [Index; NI], order: [usize; NI], t: usize)
+where
+    T::Storage: Default,
+{
+    use specs::storage::GenericWriteStorage;
+    let mut masked = MaskedStorage::<T>::new(Default::default());
+    let mut m = any_content::<T>(&mut masked, ids, order);
+    let (ent, st) = any_entities(ids);
+    let env = Env::new(ent);
+    let (h, live) = any_handle(ids, &st, t);
+    let x = nd::u8();
+    let dflt = T::default().val();
+    #[cfg(kani)]
+    let mut ws: WriteStorage<'_, T> = Storage::new(env.fetch(), shred::FetchMut::verif_from_mut(&mut masked));
+    #[cfg(not(kani))]
+    let mut w2 = shred::World::empty();
+    #[cfg(not(kani))]
+    let mut ws: WriteStorage<'_, T> = {
+        w2.insert(masked);
+        Storage::new(env.fetch(), w2.fetch_mut())
+    };
+    match ws.get_mut_or_default(h) {
+        Some(mut a) => {
+            assert!(live, "C03: get_mut_or_default through a dead handle returned a component");
+            let want = m[t].unwrap_or(dflt);
+            assert!(a.val() == want, "C04: get_mut_or_default returned the wrong component");
+            a.access_mut().set(x);
+            m[t] = Some(T::norm(x));
+        }
+        None => assert!(!live, "C04: get_mut_or_default refused a live entity"),
+    }
+    for i in 0..NI {
+        assert!(ws.mask().contains(ids[i]) == m[i].is_some(), "C04: membership mask differs from the map");
+        if let Some(g) = st[i].current() {
+            let cur = Entity::verif_new(ids[i], g);
+            assert!(ws.get(cur).map(|c| c.val()) == m[i], "C04: lookup differs from the map");
+        }
+    }
+    witness!(live && m[t].is_some(), "or_default: live handle");
+    witness!(!live && st[t].current().is_some(), "or_default: stale handle, index reused");
+    forget(ws);
+    forget(env);
+}
